@@ -14,6 +14,11 @@ python3 harness/translate_values.py coq/Gen > work/translate.log 2>&1
 TR=$?
 cat work/translate.log
 if [ $TR -ne 0 ]; then echo "BUILD-FAIL translator"; exit 3; fi
+# Unicode classification tables from the interpreter that runs droop (fail closed like the translator)
+${DROOP_PYTHON:-/venv/bin/python} harness/gen_unicode_tables.py coq/Gen > work/unicode_tables.log 2>&1
+UT=$?
+cat work/unicode_tables.log
+if [ $UT -ne 0 ]; then echo "BUILD-FAIL translator (unicode tables)"; exit 3; fi
 cd coq
 (echo "-Q . Droop"; echo "-arg -w -arg -notation-overridden"; find Model Gen Proofs Props -name '*.v' | sort; echo Extract.v; echo ExtractRef.v) > _CoqProject.new
 cmp -s _CoqProject.new _CoqProject 2>/dev/null || { mv _CoqProject.new _CoqProject; coq_makefile -f _CoqProject -o Makefile >/dev/null; }
